@@ -193,27 +193,46 @@ deriving DecidableEq, Repr
 
 def stripPrefix (s p : Str) : Str := if hasPrefix s p then s.drop p.length else s
 
-/-- `(*Target).BuildRedirectURL(requestURL)`, one `let` per statement of `target.go`. -/
-def buildRedirectURL (t : RTarget) (req : URL) : URL :=
-  -- t.RedirectURL = &url.URL{Scheme, Host, Path: t.URL.Path, RawPath: t.URL.Path, RawQuery}
-  let u : URL := { scheme := t.url.scheme, host := t.url.host, path := t.url.path, rawPath := t.url.path, rawQuery := t.url.rawQuery }
-  -- treat case of $path not separated with a / from host (D17 repaired: the raw path is set as well)
-  let u := if hasSuffix u.host vPath then
-      { u with host := u.host.take (u.host.length - vPath.length), path := vPath, rawPath := vPath } else u
-  -- remove / before $path in redirect url
-  let u := if contains vSlashPath u.path then
-      { u with path := replace1 vSlashPath vPath u.path, rawPath := replace1 vSlashPath vPath u.rawPath } else u
-  -- remove strip path, insert passed request path, set query
-  let u := if contains vPath u.path then
-      let rp := req.path
-      let rr := if req.rawPath.isEmpty then req.path else req.rawPath
-      let (rp, rr) := if t.strip ≠ [] then (stripPrefix rp t.strip, stripPrefix rr t.strip) else (rp, rr)
-      let (rp, rr) := if t.prepend ≠ [] then (t.prepend ++ rp, t.prepend ++ rr) else (rp, rr)
-      let u := { u with path := replace1 vPath rp u.path, rawPath := replace1 vPath rr u.rawPath }
-      if u.rawQuery.isEmpty && req.rawQuery ≠ [] then { u with rawQuery := req.rawQuery } else u
-    else u
-  let u := if u.path.isEmpty then { u with path := slash } else u
+/-! `(*Target).BuildRedirectURL(requestURL)`, one stage per statement of `target.go`. -/
+
+/-- `t.RedirectURL = &url.URL{Scheme, Host, Path: t.URL.Path, RawPath: t.URL.Path, RawQuery}` -/
+def stage1 (t : RTarget) : URL :=
+  { scheme := t.url.scheme, host := t.url.host, path := t.url.path, rawPath := t.url.path, rawQuery := t.url.rawQuery }
+
+/-- treat case of `$path` not separated with a `/` from host (D17 repaired: the raw path is set as well) -/
+def stage2 (u : URL) : URL :=
+  if hasSuffix u.host vPath then
+    { u with host := u.host.take (u.host.length - vPath.length), path := vPath, rawPath := vPath } else u
+
+/-- remove `/` before `$path` in redirect url -/
+def stage3 (u : URL) : URL :=
+  if contains vSlashPath u.path then
+    { u with path := replace1 vSlashPath vPath u.path, rawPath := replace1 vSlashPath vPath u.rawPath } else u
+
+/-- the replacement texts: request path and raw path after strip and prepend -/
+def replacement (t : RTarget) (req : URL) : Str × Str :=
+  let rp := req.path
+  let rr := if req.rawPath.isEmpty then req.path else req.rawPath
+  let (rp, rr) := if t.strip ≠ [] then (stripPrefix rp t.strip, stripPrefix rr t.strip) else (rp, rr)
+  if t.prepend ≠ [] then (t.prepend ++ rp, t.prepend ++ rr) else (rp, rr)
+
+/-- remove strip path, insert passed request path, set query -/
+def stage4 (t : RTarget) (req : URL) (u : URL) : URL :=
+  if contains vPath u.path then
+    let (rp, rr) := replacement t req
+    let u := { u with path := replace1 vPath rp u.path, rawPath := replace1 vPath rr u.rawPath }
+    if u.rawQuery.isEmpty && req.rawQuery ≠ [] then { u with rawQuery := req.rawQuery } else u
+  else u
+
+/-- `if t.RedirectURL.Path == "" { t.RedirectURL.Path = "/" }` -/
+def stage5 (u : URL) : URL := if u.path.isEmpty then { u with path := slash } else u
+
+/-- `$host` substitution -/
+def stage6 (req : URL) (u : URL) : URL :=
   if contains vHost u.host then { u with host := replace1 vHost req.host u.host } else u
+
+def buildRedirectURL (t : RTarget) (req : URL) : URL :=
+  stage6 req (stage5 (stage4 t req (stage3 (stage2 (stage1 t)))))
 
 /-- The `Location` header `ServeHTTP` sends for a redirect target (the URL has a scheme, so
 `http.Redirect` does not rewrite it). -/
